@@ -41,6 +41,7 @@ SIGS = {'SEGV': signal.SIGSEGV, 'ABRT': signal.SIGABRT, 'FPE': signal.SIGFPE, 'I
 FAULT_SIG = {'null': 'SEGV', 'abort': 'ABRT', 'div0': 'FPE', 'trap': 'ILL'}
 CRASH = ('SEGV', 'ABRT', 'FPE', 'ILL')
 SLEEP_US = 20000          # the "sleeping" backend
+BIG_PAD = 30000; BIG_SLEEP_US = 200000     # 'big backlog' rows
 WAIT_MS = 70              # a 'w' pause: the sleeping backend has drained everything and sleeps again
 KEYS = ('clock', 'sh', 'sleep_us', 'sigto', 'pad', 'wait_ms', 'noise', 'actor', 'act', 'script')
 
@@ -68,7 +69,7 @@ def act_signal(act):
     return None, act
 
 
-def valid(tokens, actor, act):
+def valid(tokens, actor, act, sh=1):
     """well-formed script: threads do nothing after x, j after x, s/r alternate and the script ends with a
     running backend, the actor is alive, and for a signal it has logged before"""
     exited = set(); joined = set(); running = True; logged = {}
@@ -96,6 +97,7 @@ def valid(tokens, actor, act):
     if exited - joined: return False
     sig, kind = act_signal(act)
     if sig and not logged.get(actor): return False
+    if sig and (sh == 0 or (sh == 2 and 'r' not in tokens)): return False     # the built-in handler must be enabled
     if kind == 'kill' and not logged.get(0): return False      # a process-directed signal lands on main
     if act == 'return' and actor != 0: return False
     if actor != 0 and actor not in logged: return False        # a thread exists once it has a statement
@@ -111,8 +113,12 @@ def prefixes(base):
     return out
 
 
-def with_idle(tokens):
-    """pause before the last statement: the backend has drained and sleeps when the last statement and the action come"""
+def with_idle(tokens, mode=True):
+    """mode 'last' (or True): pause before the last statement, so the backend has drained and sleeps when the last
+    statement and the action come; mode 'drained': pause after the last statement, so everything is already written
+    and the backend sleeps when the action comes"""
+    if not mode: return tokens
+    if mode == 'drained': return tokens + ['w']
     return tokens[:-1] + ['w', tokens[-1]]
 
 
@@ -138,7 +144,7 @@ Q_POINTS = [0, 2, 4, 6, 9, 12, 13, 17]       # token index of the last statement
 
 def backend_variant(i, crash):
     """(sleep_us, idle?, noise) variants rotated over the enumeration"""
-    v = [(0, False, 0), (SLEEP_US, False, 0), (SLEEP_US, True, 0), (0, False, 1), (SLEEP_US, False, 1)]
+    v = [(0, False, 0), (SLEEP_US, False, 0), (SLEEP_US, 'last', 0), (0, False, 1), (SLEEP_US, False, 1), (SLEEP_US, 'drained', 0), (0, 'drained', 1)]
     return v[i % len(v)]
 
 
@@ -151,14 +157,14 @@ def gen_quick():
         for pi, (toks, actor) in enumerate(pts):
             for ci, clock in enumerate(('sys', 'tsc')):
                 sl, idle, noise = backend_variant(si + pi + ci * 2, sg in CRASH)
-                cases.append(mkcase(with_idle(toks) if idle else toks, actor, 'raise:' + sg, clock=clock, sleep_us=sl, noise=noise))
+                cases.append(mkcase(with_idle(toks, idle), actor, 'raise:' + sg, clock=clock, sleep_us=sl, noise=noise))
     # real faults
     for fi, f in enumerate(FAULT_SIG):
         for ci, clock in enumerate(('sys', 'tsc')):
             for pi in (3, 6):
                 toks, actor = pts[pi + (fi % 2)]
                 sl, idle, noise = backend_variant(fi + ci + pi, True)
-                cases.append(mkcase(with_idle(toks) if idle else toks, actor, 'fault:' + f, clock=clock, sleep_us=sl, noise=noise))
+                cases.append(mkcase(with_idle(toks, idle), actor, 'fault:' + f, clock=clock, sleep_us=sl, noise=noise))
     # process-directed SIGINT/SIGTERM
     for sg in ('INT', 'TERM'):
         for clock in ('sys', 'tsc'):
@@ -169,7 +175,12 @@ def gen_quick():
         for pi, (toks, actor) in enumerate(pts[1:] if act != 'return' else [p for p in pts if p[1] == 0] + [(Q_BASE[:4], 0)]):
             for ci, clock in enumerate(('sys', 'tsc')):
                 sl, idle, noise = backend_variant(ai + pi + ci, False)
-                cases.append(mkcase(with_idle(toks) if idle else toks, actor, act, clock=clock, sleep_us=sl, noise=noise, sh=(ai + pi + ci) % 2))
+                cases.append(mkcase(with_idle(toks, idle), actor, act, clock=clock, sleep_us=sl, noise=noise, sh=(ai + pi + ci) % 2))
+    # a backlog larger than one frontend queue (the drain needs several passes): 30 kB statements, backend asleep
+    for ai, act in enumerate(('stop', 'exit', 'return', 'raise:ABRT', 'raise:INT')):
+        for ci, clock in enumerate(('sys', 'tsc')):
+            toks, actor = pts[-1] if (ai + ci) % 2 == 0 or act == 'return' else pts[-2]
+            cases.append(mkcase(toks, actor, act, clock=clock, sleep_us=BIG_SLEEP_US, pad=BIG_PAD, sh=1))
     # stop/start cycles
     for nc in (1, 2):
         base = with_cycles(Q_BASE, nc)
@@ -180,7 +191,7 @@ def gen_quick():
             for ai, act in enumerate(('stop', 'exit', 'raise:SEGV', 'raise:TERM', 'fault:abort')):
                 clock = ('sys', 'tsc')[(pi + ai + nc) % 2]
                 sl, idle, noise = backend_variant(pi + ai, False)
-                cases.append(mkcase(toks, actor, act, clock=clock, sleep_us=sl, noise=noise, sh=1))
+                cases.append(mkcase(toks, actor, act, clock=clock, sleep_us=sl, noise=noise, sh=2 if (pi + ai) % 3 == 0 else 1))
     return cases
 
 
@@ -199,40 +210,43 @@ def t_base(rng, counts, finish=True):
 
 def gen_thorough(rng):
     cases = []
-    base = t_base(rng, {0: 18, 1: 9, 2: 13})
-    # make sure thread 0 logs first (process-directed signals land on main) and thread 2 finishes before the end
-    if '0' in base and base[0] != '0':
-        base.remove('0'); base.insert(0, '0')
-    last2 = max(i for i, t in enumerate(base) if t == '2')
-    if 'x2' not in base and last2 < len(base) - 1:
-        base = base[:last2 + 1] + ['x2', 'j2'] + base[last2 + 1:]
-    pts = prefixes(base)
-    for pi, (toks, actor) in enumerate(pts):
-        for ci, clock in enumerate(('sys', 'tsc')):
-            for si, sg in enumerate(SIGS):
-                for bi in range(2):
-                    sl, idle, noise = backend_variant(2 * (pi + si) + bi + ci, sg in CRASH) if bi else (0 if (pi + si) % 2 else SLEEP_US, False, 0)
-                    cases.append(mkcase(with_idle(toks) if idle else toks, actor, 'raise:' + sg, clock=clock, sleep_us=sl, noise=noise))
-            for fi, f in enumerate(FAULT_SIG):
-                sl, idle, noise = backend_variant(pi + fi + ci, True)
-                cases.append(mkcase(with_idle(toks) if idle else toks, actor, 'fault:' + f, clock=clock, sleep_us=sl, noise=noise))
-            for ai, act in enumerate(('stop', 'exit', 'return')):
-                if act == 'return' and actor != 0: continue
-                for bi in range(2):
-                    sl, idle, noise = backend_variant(pi + ai + 2 * bi + ci, False)
-                    cases.append(mkcase(with_idle(toks) if idle else toks, actor, act, clock=clock, sleep_us=sl, noise=noise, sh=(pi + ai + bi) % 2))
-            if pi % 4 == 1:
-                for sg in ('INT', 'TERM'):
-                    cases.append(mkcase(toks, actor, 'kill:' + sg, clock=clock, sleep_us=SLEEP_US if pi % 8 == 1 else 0))
-    for nc in (1, 2):
-        cb = with_cycles(base, nc)
-        for pi, (toks, actor) in enumerate(prefixes(cb)):
-            if not valid(toks, actor, 'exit'): continue                # boundary inside a stopped phase: out of scope
-            for ai, act in enumerate(('stop', 'exit', 'return', 'raise:SEGV', 'raise:ABRT', 'raise:TERM', 'raise:INT')):
-                if act == 'return' and actor != 0: continue
-                clock = ('sys', 'tsc')[(pi + ai) % 2]
-                sl, idle, noise = backend_variant(pi + ai + nc, False)
-                cases.append(mkcase(with_idle(toks) if idle else toks, actor, act, clock=clock, sleep_us=sl, noise=noise, sh=1))
+    for bn, counts in enumerate(({0: 18, 1: 9, 2: 13}, {0: 12, 1: 15, 2: 13})):
+        base = t_base(rng, counts)
+        # thread 0 logs first (a process-directed signal lands on main, which must have logged before)
+        if base[0] != '0':
+            base.remove('0'); base.insert(0, '0')
+        pts = prefixes(base)
+        for pi, (toks, actor) in enumerate(pts):
+            for ci, clock in enumerate(('sys', 'tsc')):
+                for si, sg in enumerate(SIGS):
+                    for bi in range(3):
+                        sl, idle, noise = backend_variant(pi + si + ci + bn + (0, 2, 5)[bi], sg in CRASH)
+                        cases.append(mkcase(with_idle(toks, idle), actor, 'raise:' + sg, clock=clock, sleep_us=sl, noise=noise))
+                for fi, f in enumerate(FAULT_SIG):
+                    for bi in range(2):
+                        sl, idle, noise = backend_variant(pi + fi + ci + 3 * bi, True)
+                        cases.append(mkcase(with_idle(toks, idle), actor, 'fault:' + f, clock=clock, sleep_us=sl, noise=noise))
+                for ai, act in enumerate(('stop', 'exit', 'return')):
+                    if act == 'return' and actor != 0: continue
+                    for bi in range(3):
+                        sl, idle, noise = backend_variant(pi + ai + ci + (0, 2, 5)[bi], False)
+                        cases.append(mkcase(with_idle(toks, idle), actor, act, clock=clock, sleep_us=sl, noise=noise, sh=(pi + ai + bi) % 2))
+                if pi % 4 == 3:
+                    for ai, act in enumerate(('stop', 'exit', 'raise:SEGV', 'raise:TERM')):
+                        cases.append(mkcase(toks, actor, act, clock=clock, sleep_us=BIG_SLEEP_US, pad=BIG_PAD, sh=1))
+                if pi % 4 == 1:
+                    for sg in ('INT', 'TERM'):
+                        cases.append(mkcase(toks, actor, 'kill:' + sg, clock=clock, sleep_us=SLEEP_US if pi % 8 == 1 else 0))
+        for nc in (1, 2):
+            cb = with_cycles(base, nc)
+            for pi, (toks, actor) in enumerate(prefixes(cb)):
+                if not valid(toks, actor, 'exit'): continue                # boundary inside a stopped phase: out of scope
+                for ai, act in enumerate(('stop', 'exit', 'return', 'raise:SEGV', 'raise:ABRT', 'raise:TERM', 'raise:INT', 'fault:div0')):
+                    if act == 'return' and actor != 0: continue
+                    for clock in ('sys', 'tsc'):
+                        sl, idle, noise = backend_variant(pi + ai + nc, False)
+                        sh = 2 if ('r' in toks and (pi + ai) % 3 == 0) else 1
+                        cases.append(mkcase(with_idle(toks, idle), actor, act, clock=clock, sleep_us=sl, noise=noise, sh=sh))
     # other shapes: two threads both alive (nothing finishes), and a single thread
     for counts in ({0: 10, 1: 10}, {0: 12}):
         b2 = t_base(rng, counts, finish=False)
@@ -242,9 +256,9 @@ def gen_thorough(rng):
             acts = ['raise:' + s for s in SIGS] + ['fault:' + f for f in FAULT_SIG] + ['stop', 'exit', 'return']
             for ai, act in enumerate(acts):
                 if act == 'return' and actor != 0: continue
-                clock = ('sys', 'tsc')[(pi + ai) % 2]
-                sl, idle, noise = backend_variant(pi + ai, act_signal(act)[0] in CRASH)
-                cases.append(mkcase(with_idle(toks) if idle else toks, actor, act, clock=clock, sleep_us=sl, noise=noise, sh=1 if act_signal(act)[0] else pi % 2))
+                for clock in ('sys', 'tsc'):
+                    sl, idle, noise = backend_variant(pi + ai, act_signal(act)[0] in CRASH)
+                    cases.append(mkcase(with_idle(toks, idle), actor, act, clock=clock, sleep_us=sl, noise=noise, sh=1 if act_signal(act)[0] else pi % 2))
     return cases
 
 
@@ -377,7 +391,8 @@ def monitor(case, obs):
                 fails.append(('snapshot', 'no file content at the stop of token %s' % idx))
             else:
                 st, _, fo, _ = parse_file(snap)
-                miss = covers(st, completed(i))
+                b = next((j for j, x in enumerate(issue) if x == 'B ' + idx), i)
+                miss = covers(st, completed(b))
                 if miss:
                     fails.insert(0, ('lost-at-stop', 'when Backend::stop() (script token %s) returned, %d statement(s) completed before it were not in the file: %s'
                                      % (idx, len(miss), ' '.join('t%d:%d' % m for m in miss[:6]))))
@@ -410,6 +425,10 @@ def monitor(case, obs):
     for t, s, ln in st:
         if t != 9 and s >= issued.get(t, 0):
             fails.append(('foreign', 'the file holds t%d:%d which the program never logged' % (t, s))); break
+    if torn and sig in CRASH:
+        # the process was killed by the re-raised signal while the backend may have been writing other threads'
+        # later statements: an unterminated last line after the handler's flush is not a loss
+        foreign = foreign[:-1]
     if foreign:
         fails.append(('foreign', 'unexpected line in the file: %r (line %d)%s' % (foreign[0][0][:80], foreign[0][1] + 1, ' [unterminated last line]' if torn else '')))
     # ---- (a) completed statements are there
@@ -477,12 +496,14 @@ def facts(case, obs):
         m = re.search(r'visible=(-?\d+)', issue[ai])
         vis = int(m.group(1)) if m else None
     threads = set(t for t, _ in done)
+    scripted = [d for d in done if d[0] != 9]            # the noise thread's progress is timing dependent: not counted
     other_missing = 0
     sig, kind = act_signal(c['act'])
     if sig and obs['file'] is not None and kind != 'kill':
         st = parse_file(obs['file'])[0]
         other_missing = len(covers(st, [d for d in done if d[0] != c['actor']]))
-    return {'completed': len(done), 'threads_logged': len(threads), 'other_logged': len(threads - {c['actor']}) > 0,
+    return {'completed': len(done), 'completed_scripted': len(scripted), 'threads_logged': len(threads),
+            'other_logged': len(set(t for t, _ in scripted) - {c['actor']}) > 0,
             'backlog': None if vis is None else max(0, len(done) - max(vis, 0)),
             'finished_threads': sum(1 for l in issue[:ai or 0] if l.startswith('J ')),
             'cycles': sum(1 for l in issue[:ai or 0] if l.startswith('R ')),
@@ -490,7 +511,7 @@ def facts(case, obs):
 
 
 def nontrivial(f):
-    return f['completed'] >= 2 and f['other_logged']
+    return f['completed_scripted'] >= 2 and f['other_logged']
 
 
 # ---------------------------------------------------------------------------------------- findings
@@ -548,7 +569,7 @@ def shrink(exe, case, kind, tmpdir, timeout, budget_s=45):
     c.update(noise=cur['noise'], pad=cur['pad'])
 
     def fails_tokens(toks):
-        if not valid(toks, c['actor'], c['act']): return False
+        if not valid(toks, c['actor'], c['act'], c['sh']): return False
         return fails_case(build(toks))
     toks = ddmin(c['tokens'], fails_tokens, max_tests=40)
     return build(toks)
@@ -584,7 +605,7 @@ def run(tier):
     cases = []
     for cs in corpus() + known_replays + gen:
         c = parse_case(cs)
-        if not valid(c['tokens'], c['actor'], c['act']):
+        if not valid(c['tokens'], c['actor'], c['act'], c['sh']):
             raise RuntimeError('generator produced an ill-formed case: ' + cs)
         if cs not in cases: cases.append(cs)
     tmpdir = tempfile.mkdtemp(prefix='c07_run_')
@@ -603,10 +624,11 @@ def run(tier):
             sig, kind = act_signal(c['act'])
             bk = fa['backlog']
             keys = ['action=' + (kind if kind in ('raise', 'kill', 'fault') else c['act']), 'clock=' + c['clock'],
-                    'backend=' + ('sleeping' if c['sleep_us'] else 'spinning') + ('+idle-pause' if c['tokens'][-2:-1] == ['w'] else '') + ('+noise-thread' if c['noise'] else ''),
+                    'backend=' + ('sleeping' if c['sleep_us'] else 'spinning') + ('+pause-before-last-statement' if c['tokens'][-2:-1] == ['w'] else '')
+                    + ('+pause-before-action' if c['tokens'][-1:] == ['w'] else '') + ('+noise-thread' if c['noise'] else '') + ('+30kB-statements' if c['pad'] >= 10000 else ''),
                     'backlog_at_action=' + ('unknown' if bk is None else '0 (drained)' if bk == 0 else '1-5' if bk <= 5 else '>5'),
                     'cycles_before_action=%d' % fa['cycles'], 'finished_threads=%d' % fa['finished_threads'],
-                    'threads_logged=%d' % fa['threads_logged'], 'signal_handler=' + ('on' if c['sh'] else 'off'), 'actor=' + ('main' if c['actor'] == 0 else 'other')]
+                    'threads_logged=%d' % fa['threads_logged'], 'signal_handler=' + ('on', 'off', 'on-from-first-restart')[(1, 0, 2).index(c['sh'])], 'actor=' + ('main' if c['actor'] == 0 else 'other')]
             if sig: keys.append('signal=' + sig + ('(%s)' % c['act'] if kind != 'raise' else ''))
             for k in keys: hist[k] = hist.get(k, 0) + 1
             if nontrivial(fa): nt.add(cs)
@@ -656,8 +678,8 @@ def run(tier):
                      rule='one child process per case = (script prefix ending at a statement boundary, acting thread, terminal action, clock source, backend '
                           'variant, stop/start cycles); quick: base script %s, crash points at tokens %s, all 6 signals x 8 points x 2 clocks, real faults, process-directed '
                           'INT/TERM, stop/exit/return rows, 1 and 2 cycles; thorough: every statement boundary of a seeded 40-statement 3-thread script (+1/2 cycles, a '
-                          '2-thread all-alive script and a 1-thread script). Non-trivial = at least 2 statements had completed before the terminal action and at least '
-                          'one thread other than the acting one had logged; distinct by case text (configuration + script)' % (','.join(Q_BASE), Q_POINTS),
+                          '2-thread all-alive script and a 1-thread script). Non-trivial = at least 2 scripted statements had completed before the terminal action and at least '
+                          'one scripted thread other than the acting one had logged (the timing-dependent noise thread is not counted); distinct by case text (configuration + script)' % (','.join(Q_BASE), Q_POINTS),
                      evaluations=len(cases), distinct_nontrivial=len(nt), traces=len(cases) - len(failing),
                      extra_cov={'exhaustive': True, 'histogram': dict(sorted(hist.items())), 'monitor_failures': len(failing),
                                 'children_hung': sum(1 for o in obs if o['status'] == 'HANG'),
